@@ -79,6 +79,10 @@ func (p *packetizer) Packetize(payload []byte, samples uint32) []*Packet {
 			headerSize += 4
 		}
 	}
+	if headerSize > p.MTU {
+		// no room for any payload: the budget must not wrap around
+		headerSize = p.MTU
+	}
 	payloads := p.Payloader.Payload(p.MTU-headerSize, payload)
 	packets := make([]*Packet, len(payloads))
 
